@@ -587,6 +587,13 @@ func RunCheck(self string, prop, tier, verifDir string) int {
 		fmt.Println("harness errors: the simulator itself failed; this is not a verdict on the property")
 		return 2
 	}
+	if prop == "C10" {
+		probe, v := buildProbeC10()
+		selfTestExtra["default_binary_build_probe"] = probe
+		if v != nil {
+			total.Found = append(total.Found, *v)
+		}
+	}
 	exit := reportAndEvidence(spec, tier, seed, verifDir, total, start, selfTestExtra)
 	if selfTestViolation {
 		exit = 1
@@ -627,6 +634,10 @@ func reportAndEvidence(spec CheckSpec, tier string, seed int64, verifDir string,
 		}
 		nViol++
 		path := ""
+		if f.Schedule == nil {
+			path = writeCmdReplay(verifDir, spec.Property, cliViolation{Rule: f.V.Rule, Key: f.V.Key, Detail: f.V.Detail, Cmd: []string{"tx", "fundraising", "--help"}}, "go build ./cmd/fundraisingd (no tags, no ldflags)", seed)
+			fmt.Printf("violation detail: %s\n", f.V.Detail)
+		}
 		if f.Schedule != nil {
 			budget := 25 * time.Second
 			if nViol > 3 {
@@ -836,4 +847,48 @@ func SelfTest(self string, base int64, nSeeds int, profiles []string, procs []in
 		}
 	}
 	return r
+}
+
+// buildProbeC10 (not simulation: a deterministic build + process start): the
+// default build of cmd/fundraisingd must not register the explicit
+// add-allowed-bidder command (the switch is off); the documented testing link
+// flag must turn it on (positive control).
+func buildProbeC10() (map[string]interface{}, *FoundViolation) {
+	out := map[string]interface{}{}
+	scratch, err := os.MkdirTemp("/var/tmp", "verif-scratch.")
+	if err != nil {
+		out["error"] = err.Error()
+		return out, nil
+	}
+	defer os.RemoveAll(scratch)
+	short := func(bin string) string {
+		c := &cliEnv{bin: bin, home: filepath.Join(scratch, "home"), scratch: scratch}
+		r := c.run(60*time.Second, "tx", "fundraising", "--help")
+		for _, ln := range strings.Split(r.Out, "\n") {
+			if strings.Contains(ln, "add-allowed-bidder") {
+				return strings.TrimSpace(ln)
+			}
+		}
+		if r.Exit != 0 || r.Panic {
+			return "binary does not run"
+		}
+		return "absent"
+	}
+	def := filepath.Join(scratch, "fundraisingd")
+	if err := buildDefaultBinary("/repo", def, ""); err != nil {
+		out["error"] = "build: " + err.Error()
+		return out, nil
+	}
+	dShort := short(def)
+	out["default_build"] = dShort
+	ctl := filepath.Join(scratch, "fundraisingd-testing")
+	if err := buildDefaultBinary("/repo", ctl, "-X github.com/tendermint/fundraising/x/fundraising/keeper.enableAddAllowedBidder=true"); err == nil {
+		out["testing_link_flag_build"] = short(ctl)
+	} else {
+		out["testing_link_flag_build"] = "build failed"
+	}
+	if strings.Contains(dShort, "Send a AddAllowedBidder tx") {
+		return out, &FoundViolation{V: Violation{Property: "C10", Rule: "default_build.switch_on", Key: "binary", Detail: "the default build of cmd/fundraisingd registers the testing-only add-allowed-bidder command: keeper.EnableAddAllowedBidder is true without the testing link flag", Block: 0, Tx: -1}}
+	}
+	return out, nil
 }
